@@ -26,7 +26,7 @@ NODE_MUTATORS = ["name", "needs_seed", "add_inputs", "set_inputs"]
 CALC_MUTATORS = ["function"]
 DIST_MUTATORS = ["at", "distribution", "per_obs"]
 VAR_MUTATORS = ["name", "observed", "parameter", "value_node", "dist_node", "transform"]
-INVALID = ["dup_node_name", "dup_var_name", "dup_group_name", "reserved_name", "cycle", "cycle_via_at"]
+INVALID = ["dup_node_name", "dup_var_name", "dup_group_name", "reserved_name", "cycle", "cycle_via_at", "cycle_then_repair", "dropped_model_rebuild"]
 
 
 def gen_plan(rng, tier: str, idx: int) -> dict:
@@ -292,8 +292,57 @@ def try_mutation(model, kind, pick, V, counters):
         V.add("frozen", f"state-changed/{label}", f"{label} on {target.name!r}: {err}")
 
 
+def small_structure_ok(model, V, where):
+    nodes = list(model.nodes.values())
+    ids = {id(n) for n in nodes}
+    for n in nodes:
+        outs = list(n.outputs)
+        inv = [m for m in nodes if any(x is n for x in (*m.inputs, *m.kwinputs.values(), *( [m.at] if isinstance(m, Dist) and m.at is not None else [])))]
+        if {id(o) for o in outs} != {id(o) for o in inv} or len(outs) != len({id(o) for o in outs}):
+            V.add("outputs-inverse", where, f"{where}: outputs of {n.name} are {[o.name for o in outs]}, nodes listing it as input: {[o.name for o in inv]}")
+        if any(id(o) not in ids for o in outs):
+            V.add("outputs-inverse", where + "/foreign", f"{where}: {n.name} has an output that is not in the model")
+
+
+def rebuild_scenarios(kind, V, counters):
+    """Nodes that were wired into a model once (a rejected build, or a model that was dropped without
+    pop) are built again: the new model must be complete and usable."""
+    import gc
+
+    a = lsl.Var(jnp.float32(1.0), name="a")
+    b = lsl.Var(jnp.float32(2.0), name="b")
+    c = Calc(lambda x, y: x + y, a, b, _name="c")
+    d = Calc(lambda x: x * 2, c, _name="d")
+    try:
+        if kind == "cycle_then_repair":
+            c.set_inputs(a, d)
+            try:
+                lsl.GraphBuilder().add(d).build_model()
+                V.add("invalid-graph-accepted", "cycle", "a cyclic graph was built")
+                return
+            except Exception:
+                pass
+            c.set_inputs(a, b)  # repaired in place
+            model = lsl.GraphBuilder().add(d).build_model()
+        else:
+            m0 = lsl.GraphBuilder().add(d).build_model()
+            del m0
+            gc.collect()
+            model = lsl.GraphBuilder().add(d).build_model()
+        small_structure_ok(model, V, kind)
+        model.vars["a"].value = jnp.float32(5.0)
+        got = float(model.nodes["d"].value)
+        if got != 14.0 or model.nodes["d"].outdated:
+            V.add("roundtrip-behaviour", kind, f"{kind}: after a := 5 the node d holds {got} (outdated={model.nodes['d'].outdated}), expected 14")
+    except Exception as e:
+        V.add("roundtrip-fails", f"{kind}/{type(e).__name__}", f"{kind}: {e}")
+    counters[f"probe.{kind}"] = counters.get(f"probe.{kind}", 0) + 1
+
+
 def invalid_build(kind, V, counters):
     """F6: graphs that must be rejected."""
+    if kind in ("cycle_then_repair", "dropped_model_rebuild"):
+        return rebuild_scenarios(kind, V, counters)
     a = lsl.Var(jnp.float32(1.0), name="a")
     b = lsl.Var(jnp.float32(2.0), name="b")
     c = Calc(lambda x, y: x + y, a, b, _name="c")
